@@ -17,6 +17,16 @@ CLAIMED = {
          'finite, so this is a complete decision.',
          'Trusted: Lean kernel; axioms propext, Quot.sound; the extractor (harness/extract.py); the transcription of '
          'the status tables of PS3.7 Annex C / PS3.4 in Dicom/Spec/StatusSpec.lean.'),
+
+ 'C04': ('DESIGN.md §6 C04',
+         'Lean 4 theorem over the complete cell table regenerated from the running state machine',
+         'The real StateMachine.action is executed on the real provider object (recording socket, timer, queue) for all '
+         '13 x 19 cells, both roles and two distinct primitives per event (988 cells); the observations are emitted as '
+         'Lean data and the kernel re-proves that every cell yields exactly the effects (PDU on the wire, indication, '
+         'close/connect, ARTIM) and next state of PS3.8 Table 9-10, and that every undefined cell is inert. Finite '
+         'domain: a complete decision.',
+         'Trusted: Lean kernel (axiom propext only); harness/extract.py observe_cell; the transcription of Table 9-10 '
+         'and Tables 9-6..9-9 in Dicom/Spec/Table910.lean.'),
 }
 
 PENDING_REASON = 'check not built yet in this round; planned in DESIGN.md §6 (Lean model + theorem + tie)'
